@@ -41,9 +41,16 @@ structure S where
   lateClosed : Option Bool := none   -- late-body cases: was the connection closed before the rest of the request body was sent?
   deriving Inhabited
 
+/-- `Header().Add(k, v)`: a second value for a field. The response-writer model keeps one value per key, so the
+    second value travels under an alias of the key (its last letter replaced by '~', same length) which is mapped
+    back before responses are compared: both values must reach the parser as separate values of the one field. -/
+def aliasKey (k : Bytes) : Bytes := k.dropLast ++ [126]
+def unaliasKey (k : Bytes) : Bytes := if k.getLast? == some 126 then k.dropLast ++ [105] else k   -- only "X-Multi" is ever added
+
 def parseOp (t : String) : Option HOp :=
   match t.splitOn ":" with
   | ["h", k, v] => some (.setHeader (unhex k) (unhex v))
+  | ["a", k, v] => some (.setHeader (aliasKey (unhex k)) (unhex v))
   | ["s", c] => c.toNat?.map .writeHeader
   | ["w", n, b] => n.toNat?.map (fun n => .write (List.replicate n ((unhex b).headD 0)))
   | ["f"] => some .flush
@@ -57,7 +64,7 @@ def headersText (hs : List (Bytes × Bytes)) : String :=
   let items := hs.foldl (fun acc (k, v) => insertSorted (hexOf k ++ ":" ++ (if v.isEmpty then "" else hexOf v)) acc) []
   if items.isEmpty then "-" else ",".intercalate items
 
-def respText (r : Resp) : String := s!"{r.minor} {r.status} {headersText r.headers} {hexOf r.body}"
+def respText (r : Resp) : String := s!"{r.minor} {r.status} {headersText (r.headers.map (fun kv => (unaliasKey kv.1, kv.2)))} {hexOf r.body}"
 
 /-- parse the wire into consecutive responses -/
 def parseAll : Nat → Bytes → List Resp × Option String
